@@ -85,6 +85,7 @@ func TestCheck(t *testing.T) {
 			r.Require(r.Counter("realtime_silences_slept") >= 50, "the real-time variant did not sleep through real silences")
 		}
 		returnDuringCleanup(r)
+		joinDuringUnknownPass(r)
 		cleanupUnderLeadershipChurn(r)
 		r.Require(r.Counter("return_overlaps_achieved") >= int64(r.N(50, 500)) && r.Counter("return_overlaps_confirmed_by_goroutine_dump") >= 10, "too few returns actually overlapped the clean-up goroutine")
 		r.Require(r.Counter("histories_leading_some_shards_only") >= 100 && r.Counter("reclaimed_conditions_whose_name_hashes_to_a_shard_not_led") >= 50,
